@@ -216,7 +216,9 @@ def run_history_impl(ops):
                                  var_type="integer" if o[1] else "continuous")
             cols += [vs[i] for i in idx]
         elif o[0] == "obj":
-            expr = s.quicksum(float(c) * cols[i] for i, c in o[3]) + float(o[2])
+            expr = s.quicksum(float(c) * cols[i] for i, c in o[3])
+            if o[2] != 0:
+                expr = expr + float(o[2])        # otherwise the expression carries no constant term at all
             s.set_objective(expr, sense="maximize" if o[1] else "minimize")
         elif o[0] == "fix":
             s.queue_fix_variable(cols[o[1]], float(o[2]))
@@ -338,6 +340,7 @@ def run(ctx):
     hs.append([("add", True, [(F(0), F(5)), (F(0), F(6)), (F(0), F(7))]), ("lb", 2, F(1)), ("lb", 0, F(2)), ("opt",)])
     hs.append([("add", True, [(F(0), F(5)), (F(0), F(6))]), ("lb", 1, F(1)), ("lb", 1, F(2)), ("fix", 0, F(3)), ("fix", 0, F(1)), ("opt",)])
     hs.append([("add", False, [(F(0), F(5))]), ("obj", False, F(0), [(0, F(2))]), ("obj", True, F(1), []), ("opt",)])
+    hs.append([("add", False, [(F(0), F(5))]), ("obj", False, F(5), [(0, F(2))]), ("obj", False, F(0), [(0, F(1))]), ("opt",)])
     outs = ctx.model.run([history_request(h) for h in hs], multiline=True)
     for h, out in zip(hs, outs):
         try:
